@@ -468,7 +468,7 @@ Proof. intros [(A & B & _)|(p & _ & q & _ & (A & B & _))]; split; assumption. Qe
 
 Lemma pump_effect_wake s : pump_effect s (wake_pump_closed s).
 Proof.
-  unfold wake_pump_closed. destruct (pump_owner s) as [p|]; [|left; apply quiet_refl].
+  unfold wake_pump_closed. destruct (closed s); [|left; apply quiet_refl]. destruct (pump_owner s) as [p|]; [|left; apply quiet_refl].
   destruct (is_ppwait (t_pc (tasks s p))) eqn:E; [|left; apply quiet_refl].
   right. exists p. split; [unfold pcof; destruct (t_pc (tasks s p)); try discriminate; reflexivity|].
   exists PIdle. split; [left; reflexivity|].
